@@ -34,7 +34,7 @@ def _valid():
 VALID = _valid()
 ASSUMPTIONS = [
     "key universe %s; fall-back content = any of the %d valid contents; history = <=R removals then <=W writes through the overlay "
-    "(quick R=1,W=1; thorough R=2,W=2), then one operation out of store / metadata update / remove / makedir / recursive removedir / "
+    "(quick R=1,W=1; thorough R=2,W=2 for memory/memory and R=1,W=1 where a directory store takes part), then one operation out of store / metadata update / remove / makedir / recursive removedir / "
     "removedir of an empty directory / reads" % (U, len(VALID)),
     "well-formed calls only: remove of a visible file, removedir of a visible directory, metadata update of a visible file, store to a file key",
     "symbolic in the last operation: metadata int -99..99; the history prefix is concrete per path "
@@ -289,12 +289,14 @@ def obligations(tier):
     obs = []
     role_sets = [("memory", "memory")] if q else [("memory", "memory"), ("file", "memory"), ("memory", "file"), ("file", "file")]
     R, W = (1, 1) if q else (2, 2)
+    RW = {r: ((1, 1) if (q or "file" in r) else (2, 2)) for r in role_sets + [("memory", "file")]}   # directory stores: 0.5-1 s per path
     for roles in role_sets + ([("memory", "file")] if q else []):
         for op in range(len(OPS)):
             if q and roles == ("memory", "file") and OPS[op] != "openbin_w":
                 continue          # quick tier: a directory store as fall-back only where its write handles matter
+            R, W = RW[roles]
             n = len(scenarios(OPS[op], R, W))
-            chunk = (400 if q else 1500) if op > 1 else (160 if q else 500)
+            chunk = (400 if q else 1500) if op > 1 else (160 if (q or "file" in roles) else 500)
             for lo in range(0, n, chunk):
                 obs.append(Ob("ob_overlay", dict(roles=list(roles), op=op, R=R, W=W, lo=lo, hi=min(n, lo + chunk)), timeout=200 if q else 1500, per_path=30,
                               bounds="overlay=%s fall-back=%s, last op=%s; well-formed scenarios %d..%d of %d (= %d fall-back contents x <=%d removals x <=%d writes x 5 keys) x metadata int -99..99" % (
